@@ -43,3 +43,43 @@ Proof.
     assert (N2 : ~ (Qred 0 <= this x)%Q) by (intros A; apply Qle_bool_iff in A; congruence).
     rewrite !Qred_correct in *. lra.
 Qed.
+
+(* the sign laws used by the orientation theorem *)
+Lemma qc_le_iff : forall a b : Qc, Qle_bool (this a) (this b) = true <-> (this a <= this b)%Q.
+Proof. intros. apply Qle_bool_iff. Qed.
+
+Lemma qc_ltb_lt : forall a b : Qc, qc_ltb a b = true <-> (this a < this b)%Q.
+Proof.
+  intros a b. unfold qc_ltb. destruct (Qle_bool (this b) (this a)) eqn:E; cbn [negb]; split; intros H; try discriminate; try reflexivity.
+  - apply Qle_bool_iff in E. lra.
+  - assert (N : ~ (this b <= this a)%Q) by (intros A; apply Qle_bool_iff in A; congruence). lra.
+Qed.
+
+Lemma qc_ltb_eq : forall a b c d : Qc, ((this a < this b)%Q <-> (this c < this d)%Q) -> qc_ltb a b = qc_ltb c d.
+Proof.
+  intros a b c d H. destruct (qc_ltb a b) eqn:E1, (qc_ltb c d) eqn:E2; try reflexivity; exfalso.
+  - apply qc_ltb_lt in E1. apply H in E1. apply qc_ltb_lt in E1. congruence.
+  - apply qc_ltb_lt in E2. apply H in E2. apply qc_ltb_lt in E2. congruence.
+Qed.
+
+Lemma this_opp : forall x : Qc, (this (Qcopp x) == - this x)%Q.
+Proof. intros x. unfold Qcopp. cbn [this Q2Qc]. apply Qred_correct. Qed.
+Lemma this_0 : (this (Q2Qc 0%Q) == 0)%Q.
+Proof. reflexivity. Qed.
+
+Lemma qc_ltb_opp_0 : forall x, qc_ltb (Qcopp x) (Q2Qc 0%Q) = qc_ltb (Q2Qc 0%Q) x.
+Proof. intros x. apply qc_ltb_eq. rewrite this_opp, this_0. split; intros; lra. Qed.
+Lemma qc_ltb_0_opp : forall x, qc_ltb (Q2Qc 0%Q) (Qcopp x) = qc_ltb x (Q2Qc 0%Q).
+Proof. intros x. apply qc_ltb_eq. rewrite this_opp, this_0. split; intros; lra. Qed.
+Lemma qc_ltb_asym0 : forall x, qc_ltb x (Q2Qc 0%Q) = true -> qc_ltb (Q2Qc 0%Q) x = false.
+Proof.
+  intros x H. apply qc_ltb_lt in H. destruct (qc_ltb (Q2Qc 0%Q) x) eqn:E; [|reflexivity].
+  apply qc_ltb_lt in E. rewrite this_0 in *. lra.
+Qed.
+Lemma qc_ltb_tri0 : forall x, qc_ltb x (Q2Qc 0%Q) = false -> qc_ltb (Q2Qc 0%Q) x = false -> x = Q2Qc 0%Q.
+Proof.
+  intros x H1 H2. apply Qc_is_canon. rewrite this_0.
+  assert (N1 : ~ (this x < 0)%Q) by (intros A; rewrite <- this_0 in A; apply qc_ltb_lt in A; congruence).
+  assert (N2 : ~ (0 < this x)%Q) by (intros A; rewrite <- this_0 in A; apply qc_ltb_lt in A; congruence).
+  lra.
+Qed.
